@@ -6,3 +6,16 @@ package medley
 //@ func Uint64ToInt64Safe
 //@   ensures (ret1 == nil) <==> u <= 9223372036854775807
 //@   ensures ret1 == nil ==> ret0 == u
+
+// ---- C15: contiguous, gap-free, exact range splitting -------------------------------------------------
+//@ pred rangesOK(r, start, end, maxRange, n) := (forall k :: 0 <= k && k < n ==> (r[k][0] <= r[k][1] && r[k][1] - r[k][0] < maxRange && r[k][1] <= end)) && (forall k :: 0 <= k && k + 1 < n ==> r[k + 1][0] == r[k][1] + 1) && (n >= 1 ==> r[0][0] == start)
+//@ func GetSyncRanges
+//@   requires maxRange >= 1 && end + maxRange < 18446744073709551616
+//@   ensures start > end ==> len(ret0) == 0
+//@   ensures start <= end ==> len(ret0) >= 1 && ret0[len(ret0) - 1][1] == end
+//@   ensures rangesOK(ret0, start, end, maxRange, len(ret0))
+//@   invariant len(ranges) == 0 || fresh(ranges)
+//@   invariant start <= i
+//@   invariant len(ranges) == 0 ==> i == start
+//@   invariant len(ranges) >= 1 ==> i == ranges[len(ranges) - 1][1] + 1 && i <= end + 1
+//@   invariant rangesOK(ranges, start, end, maxRange, len(ranges))
